@@ -565,7 +565,7 @@ def run():
     for i in range(ndocs):
         spec = cc.gen_doc(ck.rng, ALL_MODES if i % 4 else MODEL_MODES, p_noalpha=0.04)
         if ck.rng.random() < 0.2:
-            spec = cc.to_depth(ck.rng, spec, ck.rng.choice([16, 32]), i % 4 == 0 or ck.rng.random() < 0.3)
+            spec = cc.to_depth(ck.rng, spec, ck.rng.choice([16, 32]), ck.rng.random() < 0.3)
         ck.count("depth:%d" % spec.get("depth", 8))
         col, al = cc.gen_backdrop(ck.rng, cc.NCH[spec["mode"]])
         ck.count("mode:" + spec["mode"] + ("+A" if spec["docalpha"] else ""))
